@@ -40,9 +40,32 @@ Oracle (models/tdda_format_spec.py, independent of tdda; three-valued):
     verdict to compare: unspecified (that is C01/C02's ground); the path and
     dictionary routes, which share the loader, must agree on raising too.
 
+Further histories and spaces (all in the quick tier):
+  * reuse: ONE dictionary object is handed to initialize_from_dict twice,
+    then to verify_df, detect_df, verify_df, and to all battery calls of the
+    dictionary route; it is deep-compared (type-sensitive) with a snapshot:
+    the caller's dictionary is not modified, a second use gives what the
+    first gave; one path is loaded twice and the file's bytes are unchanged;
+  * W0 rewrite histories: write document d to THE path and load it (load /
+    verify_df / detect_df), 1-3 steps; after every step the observation must
+    equal that of the same content at a never-used path and of the dictionary
+    route (= what a fresh process would see).  Every case works in its own
+    directory, so no path string is seen by tdda in two cases and a case
+    behaves in a worker as in its replay;
+  * F0: date bounds at each of the 10^6 microsecond values of one second,
+    naive (min) and with a UTC offset (max), 1000 fields per document: every
+    instant kept (independent parser) and the written text stable;
+  * S0: every 2-character string over { } [ ] , : " backslash / space newline, and
+    JSON look-alikes, as field name, allowed value (alone/embedded), metadata
+    value and expression; plus valid expressions containing such sequences
+    with an extra battery frame made of strings they match / do not match;
+  * all routes must write the same fields section for a hand-written start.
+
 Signatures name the root cause: raises:<load|dump>:<Type>@<innermost tdda
 function>:<message>, text:<clause>:<feature>, fixpoint:<what changed>:<start
-feature>, content:<clause>:<kind>:<value class>, verdict:<routeA>!=<routeB>:...
+feature>, content:<clause>:<kind>:<value class>, verdict:<routeA>!=<routeB>:...,
+caller-dict-modified:<api>:<what>, second-use-differs:<api>,
+rewrite:stale:<load kind>, routes-disagree:text:dict!=<route>:<what changed>
 """
 import contextlib
 import datetime
@@ -770,9 +793,14 @@ class C09(Check):
             'plus one deviation (ignorable key at kind or top level, null-'
             'valued other kind, field name, top-level shape, metadata, text '
             'form, second kind in both orders; thorough: third kind, every '
-            'name).  Per start: BFS over {path, dict, tddafile} until closed '
+            'name); every 2-character string over JSON-structural characters '
+            'and JSON look-alikes in every string carrier; rewrite histories '
+            'of one path (1-3 steps x 5 documents x 3 load kinds); date bounds '
+            'at all 10^6 microsecond values, naive and with UTC offset.  '
+            'Per start: BFS over {path, dict, tddafile} until closed '
             '(depth <= 3 quick / 4 thorough) and a 16-frame verify_df battery '
-            'by every route.  non-trivial = tdda wrote at least one text and '
+            'by every route; one dictionary object / one path used '
+            'repeatedly and compared with a snapshot.  non-trivial = tdda wrote at least one text and '
             'the start has at least one constraint; distinct by start fields '
             'section (discovered) or document (hand-written)')
     assumptions = [
@@ -785,7 +813,8 @@ class C09(Check):
         'open(path) in a UTF-8 locale',
         'gray (never alarmed): Infinity/NaN literals vs strict JSON; date '
         'strings whose fraction is not exactly six digits or that are not '
-        'YYYY-MM-DD[( |T)HH:MM:SS[.ffffff]]; "#" keys among the field names '
+        'YYYY-MM-DD[( |T)HH:MM:SS[.ffffff][+HH:MM|-HH:MM]]; how a UTC offset '
+        'is re-spelt; "#" keys among the field names '
         'with a non-dictionary value or inside a {"value":...} dictionary; '
         '"comment" inside a value dictionary; invalid type/sign/precision '
         'names (rejecting or accepting is fine, routes must agree); key and '
